@@ -711,3 +711,41 @@ def variants(world, tier="quick", only=None):
     if only:
         out = [v for v in out if any(o in v.name for o in only)]
     return out
+
+
+# ---------------------------------------------------------------------------
+# FormulaContextualizer (normalize: the copy of a formula into an environment): the two callbacks it overrides beside walk_symbol
+# ---------------------------------------------------------------------------
+class ContextualizeVariant(RebuildVariant):
+    """FormulaContextualizer.walk_function / walk_array_value (formula, copied children): the contract of the identity
+    rebuild - same type, the operator of the formula on the copied children in their order (index/value pairs of an array
+    value stay paired), no new free symbol; sorts normalise to themselves in the model (sorts are values there)."""
+    prop_ids = ("C04", "C05")
+    replay_kind = "hashcons"          # copies between environments are part of that search
+
+    def __init__(self, world, Kop, k):
+        RebuildVariant.__init__(self, world, Kop, k, "pysmt.formula.FormulaContextualizer." +
+                                {S.FUNCTION: "walk_function", S.ARRAY_VALUE: "walk_array_value"}[Kop])
+        self.name = "copy:%s[%s/%d]" % (self.qualname.rsplit(".", 1)[1], S.OPNAMES[Kop], k)
+
+    def setup(self, ex):
+        fn, a, kw = RebuildVariant.setup(self, ex)
+        w = fn.bound
+        ctx = Obj("pysmt.formula.FormulaContextualizer", dict(w.fields), tag="contextualizer")
+        ctx.fields["type_normalize"] = Builtin("type_normalize", lambda exx, a_, kw_: a_[-1])
+        W = self.world
+        fi = W.repo.func(self.qualname)
+        return W.wrap_func(fi, fi.module, bound=ctx), a, kw
+
+
+_base_variants5c = variants
+
+
+def variants(world, tier="quick", only=None):
+    out = _base_variants5c(world, tier, None)
+    for Kop in (S.FUNCTION, S.ARRAY_VALUE):
+        for k in ARITIES[Kop]:
+            out.append(ContextualizeVariant(world, Kop, k))
+    if only:
+        out = [v for v in out if any(o in v.name for o in only)]
+    return out
